@@ -114,8 +114,16 @@ def runMeas (c : Case) : Res :=
         let (r2n, r2d) := circumradius2 s
         let r2 : Q := (if r2d == 0 then Q.ofInt 0 else ⟨r2n, r2d.toNat⟩) * unitPow 2
         let rIv := sqrtIv r2
-        bad := check "circumradius" rIv ++ bad
-        if (c.ob "circumradius_wc").isSome then bad := check "circumradius_wc" rIv ++ bad
+        -- the circumradius is measured from a circumcentre held in ABSOLUTE coordinates: its error is
+        -- a few ulps of the largest coordinate, whatever the size of the simplex (a simplex of size 1
+        -- at distance 2^30 cannot be resolved better than 2^-22 that way); allow 32 ulp(max |c|)
+        let maxc0 := pts.foldl (fun a p => p.foldl (fun a x => let v := Q.abs (Q.ofDy x); if Q.lt a v then v else a) a) (Q.ofInt 0)
+        let coordSlack : Q := (⟨32, 2 ^ 52⟩ : Q) * maxc0
+        let rIvW : Iv := ⟨rIv.lo - coordSlack, rIv.hi + coordSlack⟩
+        let farAway := Q.lt (relTol * rIv.lo) coordSlack
+        if farAway then stats := "meas.far_from_origin" :: stats
+        bad := check "circumradius" rIvW ++ bad
+        if (c.ob "circumradius_wc").isSome then bad := check "circumradius_wc" rIvW ++ bad
         -- circumcentre coordinates: absolute tolerance 1e-9 · (R + max |coordinate|)
         match c.ob "circumcenter" with
         | some toks =>
@@ -170,6 +178,7 @@ def runMeas (c : Case) : Res :=
             | some (.error e) => e == "err:DegenerateCell"
             | _ => false
           if refused "radius_ratio" && Q.lt inIv.lo eps2 then stats := "meas.quality.refused" :: stats
+          else if farAway then pure ()      -- inherits the absolute error of the circumradius
           else bad := checkG "radius_ratio" (ivDiv rIv inIv) ++ bad
           if refused "normalized_volume" && (Q.lt volExact eps2 || Q.lt avg.lo eps2 || Q.lt (ivPow avg d).lo eps2) then
             stats := "meas.quality.refused" :: stats
